@@ -192,7 +192,7 @@ def check_chain(arg: tuple[str, dict, str, int]) -> str | None:
         model.train(train)
         model.zero_grad(set_to_none=True)
         out = model(x)
-        kaisa.loss_fn(out, y, cfg.batch, None).backward()
+        kaisa.loss_fn(out, y, out.shape[0], None).backward()
         return out.detach().clone(), {
             n: p.grad.detach().clone() for n, p in model.named_parameters()}
 
